@@ -191,6 +191,27 @@ def answer (cmd : String) (args : List Nat) : String :=
       match handRankValue T args with
       | some v => showRank (HandRank.ofValue v)
       | none => "panic"]
+  | "ckc", [w] => toString (fromCkc w)
+  | "evv", ws =>
+    -- validated view (property C04): validity, validated value(s); the unvalidated value only for a valid hand
+    if 5 ≤ ws.length ∧ ws.length ≤ 7 then
+      let valid := isValid ws
+      joinStrs [toString (boolNat valid), showOpt (handRankValueValidated T ws),
+        if ws.length = 5 then showOpt (fiveCards T ws) else "-",
+        if valid then showOpt (handRankValue T ws) else "-"]
+    else "bad-request"
+  | "evt", ws =>
+    -- totality view (property C05): every ranking entry point's value, and the rank's name and class
+    if 5 ≤ ws.length ∧ ws.length ≤ 7 then
+      joinStrs [showOpt ((handRankValueAndHand T ws).map (·.1)), showOpt (handRankValue T ws),
+        showOpt (handRankValueValidated T ws), if ws.length = 5 then showOpt (fiveCards T ws) else "-",
+        match handRankValue T ws with
+        | some v => showRank (HandRank.ofValue v)
+        | none => "panic",
+        match handRankValueValidated T ws with
+        | some v => showRank (HandRank.ofValue v)
+        | none => "panic"]
+    else "bad-request"
   | "val", ws =>
     if 2 ≤ ws.length ∧ ws.length ≤ 7 then
       joinNats [boolNat (areUnique ws), boolNat (containBlank ws), boolNat (isCorrupt ws), boolNat (isValid ws)]
